@@ -1,6 +1,8 @@
 //! Engine `rawagent`: the real agent runtime (`AgentRouteTask::run_agent`) hosting an `Agent` that the
 //! harness implements at the lane byte-channel level, so that every byte a lane emitted / received is
-//! known and lanes can misbehave. Serves the runtime-level parts of C02, C03, C04, C14 and C20.
+//! known and lanes can misbehave. Serves the runtime-level parts of C01-C04, C14, C17 and C20.
+//! Extension parts (`Focus::is_extension`): attachment-level faults - a second attachment under the id of an
+//! open one, command-only channels, request frames that do not decode, map keys that are not UTF-8.
 
 mod keys;
 mod lanes;
@@ -16,15 +18,16 @@ use remote::FrameKind;
 use script::{Focus, Gen, Step};
 
 fn focus_for(prop: &str) -> Vec<(Focus, &'static str, u64)> {
-    // (focus, part name, share of the budget in percent)
+    // (focus, part name, share of the budget in percent). The extension parts (attachment-level faults) come
+    // on top of the 100 % of the parts that existed before them, which therefore run the cases they always ran.
     match prop {
         "C01" => vec![(Focus::Value, "raw-value-lanes", 100)],
-        "C02" => vec![(Focus::Map, "raw-map-spellings", 75), (Focus::Sync, "raw-sync-placements", 25)],
-        "C03" => vec![(Focus::Sync, "raw-sync-placements", 60), (Focus::Map, "raw-map-spellings", 20), (Focus::Links, "raw-link-accounting", 20)],
-        "C04" => vec![(Focus::Protocol, "raw-fault-conversations", 60), (Focus::Sync, "raw-sync-placements", 15), (Focus::Links, "raw-link-accounting", 25)],
-        "C14" => vec![(Focus::Supply, "raw-supply-bursts", 100)],
-        "C20" => vec![(Focus::Links, "raw-link-accounting", 80), (Focus::Protocol, "raw-fault-conversations", 20)],
-        "C17" => vec![(Focus::Inactivity, "raw-inactivity", 100)],
+        "C02" => vec![(Focus::Map, "raw-map-spellings", 75), (Focus::Sync, "raw-sync-placements", 25), (Focus::BadKey, "raw-nonutf8-map-keys", 15)],
+        "C03" => vec![(Focus::Sync, "raw-sync-placements", 60), (Focus::Map, "raw-map-spellings", 20), (Focus::Links, "raw-link-accounting", 20), (Focus::Attach, "raw-attachment-faults", 12)],
+        "C04" => vec![(Focus::Protocol, "raw-fault-conversations", 60), (Focus::Sync, "raw-sync-placements", 15), (Focus::Links, "raw-link-accounting", 25), (Focus::Attach, "raw-attachment-faults", 20)],
+        "C14" => vec![(Focus::Supply, "raw-supply-bursts", 100), (Focus::OneWay, "raw-oneway-commands", 15)],
+        "C20" => vec![(Focus::Links, "raw-link-accounting", 80), (Focus::Protocol, "raw-fault-conversations", 20), (Focus::Attach, "raw-attachment-faults", 20)],
+        "C17" => vec![(Focus::Inactivity, "raw-inactivity", 100), (Focus::InactivityOneWay, "raw-inactivity-oneway", 15)],
         _ => vec![(Focus::Protocol, "raw-fault-conversations", 100)],
     }
 }
@@ -160,7 +163,7 @@ fn debug_script(which: u64, rng: &mut Rng) -> (script::Config, Vec<Step>) {
     let mut cfg = g.config(Focus::Links);
     drop(g);
     cfg.remotes = 2;
-    cfg.cap_out = if which == 4 { vec![8; 3] } else { vec![4096; 3] };
+    cfg.cap_out = if which == 4 || which == 6 { vec![8; 3] } else { vec![4096; 3] };
     cfg.cap_in = vec![4096; 3];
     cfg.pace = vec![remote::FAST; 3];
     cfg.jitter_per_mille = 0;
@@ -232,6 +235,35 @@ fn debug_script(which: u64, rng: &mut Rng) -> (script::Config, Vec<Step>) {
                 Step::Settle,
             ]
         }
+        // a map lane writes one event whose key is not UTF-8 while the writer of the linked remote is idle: the
+        // remote's channel is closed (no unlinked, promise pending), nothing of either lane reaches it any more
+        5 => vec![
+            Step::Attach(0),
+            Step::Link(0, "m1".into()),
+            Step::Link(0, "v0".into()),
+            Step::Settle,
+            Step::Lane(1, LaneCtl::MapBadKey { key: Bytes::from_static(&[0xc3]), value: Some("1".into()) }),
+            Step::Settle,
+            Step::Lane(1, LaneCtl::Map(lanes::MapOpText::Update { key: "7".into(), value: "100".into() })),
+            set("a1"),
+            Step::Settle,
+        ],
+        // a second attachment under the id of an open one while a write to the first is under way: when that
+        // write completes its writer is handed to the registration that replaced it
+        6 => vec![
+            Step::Attach(0),
+            Step::Link(0, "v0".into()),
+            Step::Settle,
+            Step::Stall(0),
+            set("a1-a-body-longer-than-the-channel-of-the-stalled-remote"),
+            Step::Quiesce,
+            Step::AttachDup(0),
+            Step::Quiesce,
+            Step::Sync(0, "v0".into()),
+            Step::Settle,
+            set("a2"),
+            Step::Settle,
+        ],
         _ => vec![Step::Attach(0), Step::Sync(0, "m1".into()), Step::Settle],
     };
     (cfg, script)
@@ -284,6 +316,10 @@ fn main() {
             Focus::Inactivity => "seeded conversation (1-2 remotes, 2-4 harness-implemented lanes, paced readers, nothing stalled, no failing lane) against the real agent runtime with inactive_timeout 6/12/25 ms of virtual time and idle gaps of 1 ms .. 2 timeouts between the steps, ending with five timeouts of idleness; rules: the runtime never ends by itself less than one timeout after a lane event or a delivered command (virtual instants, exact under the paused clock; work in the very instant of the end is skipped as ambiguous), and it has ended by itself by the end of the final idle period; non-trivial when >= 4 frames were received; distinct by the schedule signature",
             Focus::Value => "seeded conversation (1-2 remotes, value and command lanes implemented by the harness with unique bodies and, one time in eight, the empty body; byte channels of 2..4096 bytes, paced/stalled/dropped readers, chunked/held sync responses, poll jitter) against the real agent runtime; per (remote, lane): every received body is one the lane produced, never more often than it was sent to that remote, in order, and the last one at quiescence is the lane's value; non-trivial when >= 4 frames were received; distinct by the schedule signature",
             Focus::Links => "seeded conversation (1-4 remotes, 2-4 harness-implemented lanes speaking the lane byte protocol, byte channels of 2..4096 bytes, paced/stalled/dropped readers, chunked/held sync responses, lane failures, poll jitter; prune_remote_delay 2-20 ms of virtual time in half of the cases, with connections removed for inactivity re-attaching under the same routing id and up to two late requests on the old channel) against the real agent runtime with NodeReporting; reporter snapshots at every checkpoint; non-trivial when >= 4 frames were received; distinct by the schedule signature (global order of (session, frame kind, lane) receipts)",
+            Focus::Attach => "seeded conversation (1-4 remotes, 2-4 harness-implemented lanes, byte channels of 2..4096 bytes, paced/stalled/dropped readers, lane failures, poll jitter, NodeReporting, prune delay in a third of the cases) against the real agent runtime, with any subset of four attachment-level faults: a second two-way attachment under the routing id of an attachment that is still open (sometimes while a write to the first is under way); 1-3 command-only channels (AgentAttachmentRequest::commander) that carry commands and, hostile, link/sync/unlink envelopes; a remote that writes a request frame that does not decode (7 ways) and goes on writing or stops; a map lane that writes an update/remove whose key is not UTF-8, to idle and to busy writers. All rules of the other parts run; in addition: the promise of a replaced attachment is completed with a reason at the replacement, the runtime does not panic, link counts never exceed the links that can exist (a link the id may have brought along to its second attachment is neither demanded nor refused), a channel is never closed with links open and its remote left registered; non-trivial when >= 4 frames were received; distinct by the schedule signature",
+            Focus::BadKey => "seeded conversation (2-3 remotes, 1-2 map lanes and sometimes a value or supply lane implemented by the harness, key spellings as in raw-map-spellings, byte channels of 2..4096 bytes, paced/stalled readers, poll jitter) against the real agent runtime in which a map lane writes, between ordinary operations, updates and removes whose key bytes are not UTF-8 (4 byte patterns), with every writer idle, with one writer certainly busy, or as it comes. Such a key is no Recon key: the event itself is not judged (if it is delivered its body must be the lane's). Every ordinary key and every remote is judged as in raw-map-spellings (convergence, per-key order, clears), and a reading remote that was linked to the lane must still get the later operations; non-trivial when >= 4 frames were received; distinct by the schedule signature",
+            Focus::OneWay => "seeded conversation (1-3 two-way remotes and 1-3 command-only channels attached with AgentAttachmentRequest::commander, each with its own routing id; command, value, map and supply lanes implemented by the harness; byte channels of 2..4096 bytes, paced/stalled readers, lanes that stop taking requests, poll jitter, NodeReporting) against the real agent runtime: single commands and back-to-back runs of 3-8 commands through the command-only channels, interleaved with the commands of the two-way remotes, channels dropped and attached again, and - hostile - link/sync/unlink envelopes on a channel that has no way back. Per source every command reaches its lane exactly once and in send order (same rule as for two-way remotes), the reporters count every one of them, the two-way remotes' frames stay legal; non-trivial when >= 4 frames were received; distinct by the schedule signature",
+            Focus::InactivityOneWay => "the raw-inactivity conversations (inactive_timeout 6/12/25 ms of virtual time, idle gaps around it, nothing stalled, final idle period of five timeouts) with 1-3 command-only channels (AgentAttachmentRequest::commander) as a further source of work for the read task; the raw-inactivity rules unchanged: no stop by itself less than one timeout after a lane event or a delivered command (whichever channel it came through), no stop with a completely written command undelivered, stopped by the end of the final idle period; non-trivial when >= 4 frames were received; distinct by the schedule signature",
             Focus::Supply => "seeded conversation (1-3 remotes, supply and command lanes implemented by the harness, bursts of up to 2000 unique items and runs of items with an empty body, byte channels of 2..4096 bytes, paced/stalled/dropped readers, poll jitter) against the real agent runtime; non-trivial when >= 4 frames were received; distinct by the schedule signature",
             _ => "seeded conversation (1-4 remotes, 2-4 harness-implemented lanes speaking the lane byte protocol, byte channels of 2..4096 bytes, paced/stalled/dropped readers, chunked/held sync responses, lane failures, poll jitter) against the real agent runtime; non-trivial when >= 4 frames were received; distinct by the schedule signature (global order of (session, frame kind, lane) receipts)",
         };
